@@ -31,6 +31,8 @@ pub struct EncOut {
     pub events: Vec<Ev>,
     /// `is_end_stream()` observed after each event
     pub end_flags: Vec<bool>,
+    /// how often the message source was polled again after it had returned `None`
+    pub src_polls_after_end: usize,
 }
 
 impl EncOut {
@@ -60,6 +62,7 @@ where
     E: Encoder<Error = Status>,
 {
     let src = ScriptStream::new(steps);
+    let src_pae = src.polls_after_end.clone();
     let ce = enc.map(|e| e.tonic());
     let mut body: Pin<Box<EncodeBody<E, ScriptStream<E::Item>>>> = Box::pin(match role {
         Role::Client => EncodeBody::new_client(encoder, src, ce, limit),
@@ -75,7 +78,7 @@ where
             limit,
         ),
     });
-    let mut out = EncOut { events: vec![], end_flags: vec![] };
+    let mut out = EncOut { events: vec![], end_flags: vec![], src_polls_after_end: 0 };
     let mut ended = false;
     let mut extra_left = extra;
     loop {
@@ -112,7 +115,28 @@ where
             extra_left -= 1;
         }
     }
+    out.src_polls_after_end = src_pae.load(std::sync::atomic::Ordering::Relaxed);
     out
+}
+
+impl EncOut {
+    /// http_body contract: once `is_end_stream()` has returned true the consumer (hyper) stops polling, so
+    /// nothing but `None` may follow - in particular no error and no data may still be pending behind it.
+    /// A message source must not be polled again after it returned `None` (only `FusedStream`s allow that).
+    pub fn contract_violation(&self) -> Option<String> {
+        if let Some(i) = self.end_flags.iter().position(|f| *f) {
+            for (j, ev) in self.events.iter().enumerate().skip(i + 1) {
+                if !matches!(ev, Ev::End) {
+                    return Some(format!("is_end_stream() was true after event {i}, but event {j} is {}", match ev { Ev::Data(d) => format!("DATA({} bytes)", d.len()), Ev::Trailers(_) => "TRAILERS".into(), Ev::Err(s) => format!("ERR({:?})", s.code()), Ev::End => "END".into(), Ev::Stuck => "STUCK".into() }));
+                }
+            }
+        }
+        // (the counter includes the poll that returned the first `None`)
+        if self.src_polls_after_end > 1 {
+            return Some(format!("the message source was polled {} time(s) after it had returned None", self.src_polls_after_end - 1));
+        }
+        None
+    }
 }
 
 #[derive(Debug)]
